@@ -314,6 +314,17 @@ def fixed():
         "loopvar-local": [decl("i", num(9)), for_("i", num(1), num(2), True, [emit("p1", var("i"))]), each("i", lst([num(4)]), [emit("p2", var("i"))]), emit("p3", var("i"))],
         "param-local": [decl("p", num(9)), mixin("m", Params([("p", None)]), [emit("p1", var("p")), decl("p", num(3)), emit("p2", var("p"))]),
                         incl("m", [("p", num(1))]), emit("p3", var("p"))],
+        # loops after 2e77b95 / 90cea8e: per-round flow scopes
+        "each-local-in-rule": [rule([a0, each("i", lst([num(1), num(2)]), [decl("a", add(var("a"), var("i")))]), rd(1)])],
+        "each-in-fn": [func("f", Params([("n", None)]), [decl("s", num(0)), each("i", lst([num(1), num(2), num(3)]), [decl("s", add(var("s"), var("i")))]), ret(add(var("s"), var("n")))]),
+                       emit("p1", call("f", [("p", num(10))]))],
+        "for-in-fn-global": [a0, func("f", Params(), [decl("s", num(0)), for_("i", num(1), num(3), True, [decl("s", add(var("s"), var("i"))), decl("a", var("s"), glob=True)]), ret(var("s"))]),
+                             emit("p1", call("f", [])), rd(2)],
+        "nested-same-loopvar": [decl("i", num(9)), each("i", lst([num(1), num(2)]), [for_("i", num(5), num(6), True, [emit("p1", var("i"))]), emit("p2", var("i"))]), emit("p3", var("i"))],
+        "each-top-global-in-if": [a0, each("i", lst([num(1), num(2)]), [if_(lt(var("i"), num(2)), [decl("a", add(var("a"), num(10)))], [decl("a", add(var("a"), num(100)))])]), rd(1)],
+        "each-in-mixin-local": [a0, mixin("m", Params(), [decl("a", num(1)), each("i", lst([num(1), num(2)]), [decl("a", add(var("a"), var("i")))]), rd(1)]), incl("m"), rd(2)],
+        "each-round-decl": [a0, each("i", lst([num(1), num(2)]), [decl("n", num(1), dflt=True), emit("p1", var("n")), decl("n", add(var("n"), num(1)))]), rd(2)],
+        "while-in-each": [a0, each("i", lst([num(1), num(2)]), [decl("k", num(0)), while_(lt(var("k"), num(2)), [decl("k", add(var("k"), num(1))), decl("a", add(var("a"), var("i")))])]), rd(1)],
         "each-closure": [func("f", Params(), [ret(var("i"))]), each("i", lst([num(1), num(2)]), [emit("p1", call("f", []))])],
     }
     for name, prog in shapes.items():
